@@ -13,6 +13,7 @@ WORK = os.path.join(ROOT, "work")
 REPLAYS = os.path.join(ROOT, "replays")
 EVIDENCE = os.path.join(ROOT, "evidence")
 NCPU = os.cpu_count() or 4
+TLA_CP = "/opt/veriftools/tla/tla2tools.jar:/opt/veriftools/tla/CommunityModules-deps.jar"
 
 
 class ToolError(Exception):
@@ -100,7 +101,9 @@ def run_tlc(module, cfg_text, wd, workers=None, timeout=900, env_extra=None, sim
     w = workers or max(1, NCPU - 2)
     meta = os.path.join(wd, "tlc_" + name)
     shutil.rmtree(meta, ignore_errors=True)
-    cmd = ["timeout", str(timeout), "tlc", "-workers", str(w), "-metadir", meta, "-cleanup", "-noGenerateSpecTE",
+    # java is started directly (same class path as the `tlc` wrapper) so that -Xss also applies to the
+    # main thread, where TLC evaluates constant definitions and initial states
+    cmd = ["timeout", str(timeout), "java", "-Xss1g", "-XX:+UseParallelGC", "-cp", TLA_CP, "tlc2.TLC", "-workers", str(w), "-metadir", meta, "-cleanup", "-noGenerateSpecTE",
            "-config", cfgp]
     if coverage:
         cmd += ["-coverage", "1"]
